@@ -7,7 +7,7 @@
    (Kids order and count, boxes, Rotate, Contents bytes, Resources down to font files and
    image bytes) is part of the unfolding of the page tree root. *)
 From Coq Require Import List ZArith NArith Bool.
-From PV Require Import C20.Model C20.Spec C20.Proofs C20.ProofsEqual C20.ProofsDedup C20.ProofsObs C20.ProofsTerm C20.ProofsRes C20.ProofsIdem.
+From PV Require Import C20.Model C20.ModelScan C20.Spec C20.Proofs C20.ProofsEqual C20.ProofsDedup C20.ProofsObs C20.ProofsTerm C20.ProofsRes C20.ProofsIdem C20.ProofsScan.
 Import ListNotations.
 Open Scope Z_scope.
 
@@ -152,7 +152,40 @@ Theorem C20_dedup_late_not_idempotent :
 Proof. exact dedup_late_not_idempotent. Qed.
 Print Assumptions C20_dedup_late_not_idempotent.
 
+(* 9. Which resource names a page USES is decided by a scanner over the decoded content
+      (parseContent; model: used_names).  On content built from the grammar
+          segment ::= [ " (" body ") Tj" ]  use          body ::= (plain byte | '\' any byte)*
+          use     ::= " /n 12 Tf" | " /n Do" | " /n gs" | " /n cs" | " /Pattern cs /n scn"
+                    | " /n sh" | " /T /n BDC"
+      (plain byte: anything but '\' and ')'; so bodies contain \\ at the end, runs of
+      backslashes before ')' and '(', \) \( octal escapes, line continuations, '/', '<', '[', '%')
+      the scanner reports exactly the names in operator position, with their categories, in
+      order: no name used after a string is lost, whatever the string contains. *)
+Theorem C20_used_names_exact : forall segs,
+  forallb seg_ok segs = true ->
+  used_names (renderSegs segs) = SOk (map segName segs).
+Proof. exact used_names_exact. Qed.
+Print Assumptions C20_used_names_exact.
+
+(* ... the grammar has no unescaped parentheses inside a string: nested balanced parentheses
+   (legal PDF) are NOT understood by the scanner -- REFUTED: "(x (y) /F9 z) Tj /F2 12 Tf"
+   uses /F2 and the scanner reports nothing; consolidation then prunes /F2 from the page
+   (reproduced on api.Optimize: class content-scanner-nested-parentheses-lose-used-resource). *)
+Theorem C20_scanner_nested_parens_refuted : used_names nested_content = SOk [].
+Proof. exact nested_parens_refuted. Qed.
+Print Assumptions C20_scanner_nested_parens_refuted.
+
 (* ---- non-vacuity ---- *)
+(* "(Folder C:\\) Tj /F2 12 Tf (a\\\) b\(\101) Tj /Im1 Do /GS1 gs" *)
+Definition ex_segs : list seg :=
+  [ (Some [APlain 67; APlain 58; AEsc 92], UFont, [70; 50]%N);
+    (Some [APlain 97; AEsc 92; AEsc 41; APlain 32; APlain 98; AEsc 40; AEsc 49; APlain 48; APlain 49], UXObject, [73; 109; 49]%N);
+    (None, UExtGState, [71; 83; 49]%N) ].
+Example C20_scanner_nonvacuous :
+  forallb seg_ok ex_segs = true /\
+  used_names (renderSegs ex_segs) = SOk [(CFont, [70; 50]%N); (CXObject, [73; 109; 49]%N); (CExtGState, [71; 83; 49]%N)].
+Proof. split; vm_compute; reflexivity. Qed.
+
 (* two cyclic font-like structures (child <-> parent back references) with different
    subset tags: EqualObjects says true through the pairs shortcut, and they are related *)
 Definition ex_g : graph := fun nr =>
